@@ -27,7 +27,9 @@ OpMat(kind, name) ==
       [] name = "C" -> << <<Z0, I1>>, <<Z0, Z0>> >>
       [] name = "Cd" -> << <<Z0, Z0>>, <<I1, Z0>> >>
       [] name = "N" -> << <<Z0, Z0>>, <<Z0, I1>> >>
-      [] name = "Sz" -> << <<<<-1, 0>>, Z0, Z0>>, <<Z0, Z0, Z0>>, <<Z0, Z0, I1>> >>
+      \* "Sz": spin-1 diag(-1, 0, 1); on a spin-1/2 site TWICE the operator (the harness halves per occurrence)
+      [] name = "Sz" -> IF kind = "T" THEN << <<<<-1, 0>>, Z0, Z0>>, <<Z0, Z0, Z0>>, <<Z0, Z0, I1>> >>
+                        ELSE << <<I1, Z0>>, <<Z0, <<-1, 0>>>> >>
 OpNames(kind, cons) ==
     CASE kind = "H" -> IF cons = "U1" THEN {"Sigmaz", "Sp", "Sm"} ELSE {"Sigmaz", "Sigmax", "Sigmay", "Sp", "Sm"}
       [] kind = "F" -> {"C", "Cd", "N"}
@@ -325,6 +327,26 @@ Extract(first, lst) ==
     /\ last' = [op |-> "extract_segment", first |-> first, last |-> lst]
     /\ Step(last')
 
+\* seg = extract_segment(first, last); seg.apply_local_op(i, non-unitary op) (canonical_form: segment_boundaries set);
+\* seg.extract_enlarged_segment(psi, psi, first, last, new_first_last = (nf, nl)): the enlarged segment denotes the
+\* window nf..nl of the background state with the operator applied on site i (in the outer Schmidt bases of the window)
+ExtractEnlarged(first, lst, i, name, nf, nl) ==
+    /\ Live /\ "extract_enlarged_segment" \in Ops /\ R.known /\ mode = "raw"
+    /\ nf <= first /\ first <= i /\ i <= lst /\ first < lst /\ lst <= nl /\ (nf < first \/ lst < nl) /\ nl - nf + 1 <= 4
+    /\ (~Inf(R) => (nf >= 0 /\ nl < NL(R)))
+    /\ LET n == nl - nf + 1
+           kinds == [k \in 1..n |-> R.kinds[SiteIx(R, nf + k - 1)]]
+           kind == kinds[i - nf + 1]
+       IN /\ name \in OpNames(kind, R.cons) /\ ~IsUnitary(name) /\ ~NeedsJW(kind, name)
+          /\ SizeOK(SegRep(R, nf, nl))
+          /\ LET P1 == ApplyOp1(Window(R, nf, n), i - nf + 1, OpMat(kind, name))
+             IN /\ ~TIsZero(P1) /\ AbsLE(P1, 400)
+                /\ R' = [known |-> FALSE, bc |-> IF R.bc = "finite" /\ nf = 0 /\ nl = NL(R) - 1 THEN "finite" ELSE "segment",
+                          kinds |-> kinds, cons |-> R.cons]
+                /\ psi' = P1 /\ nrm' = nrm /\ mode' = "unitnn"
+                /\ last' = [op |-> "extract_enlarged_segment", first |-> first, last |-> lst, i |-> i, name |-> name, nf |-> nf, nl |-> nl]
+                /\ Step(last')
+
 -----------------------------------------------------------------------------
 Start9 == phase = "init" /\
     \/ \E bc \in BCs, n \in 1..MaxL, cp \in 1..2, kp \in 1..5, cn \in 0..2, fp \in 1..6, v \in 0..1, cx \in 0..1, nr \in {1, 3} :
@@ -356,7 +378,9 @@ DoRoll == Live /\ \E sh \in {-2, -1, 1, 2, 3} : Roll(sh)
 DoEnlarge == Live /\ \E f \in 2..3 : Enlarge(f)
 DoExtract == Live /\ \E first \in (0 - 2)..3, lst \in (0 - 1)..5 : (nops >= 1 => first \in {0 - 1, 0}) /\ Extract(first, lst)
 
-Next9 == DoStart \/ DoLocalOp \/ DoLocalOp2 \/ DoProductOp \/ DoLocalTerm \/ DoSwap \/ DoPermute \/ DoAdd \/ DoGroup \/ DoGroupSplit
+DoExtractEnlarged == Live /\ nops = 0 /\ \E first \in 0..2, lst \in 1..3, i \in 0..3, name \in {"Sp", "Sm", "N", "Sz"}, nf \in (0 - 1)..2, nl \in 1..4 :
+                        ExtractEnlarged(first, lst, i, name, nf, nl)
+Next9 == DoExtractEnlarged \/ DoStart \/ DoLocalOp \/ DoLocalOp2 \/ DoProductOp \/ DoLocalTerm \/ DoSwap \/ DoPermute \/ DoAdd \/ DoGroup \/ DoGroupSplit
          \/ DoEnlargeChi \/ DoCompress \/ DoConvert9 \/ DoCanon \/ DoInversion \/ DoRoll \/ DoEnlarge \/ DoExtract
 Spec9 == Init /\ [][Next9]_vars
 
